@@ -161,7 +161,10 @@ def run(ctx):
         return best
 
     bi = gate("builtin", ev.calls_to("blots_core::functions::is_built_in_function"), lambda b: root_key(ev.trace(ev.term(b)["args"][0])) == key_root)
-    ctx.inst("C03.R2", "assignment#not-builtin", bi is not None, "is_built_in_function(ident) dominates the insert and its true edge exits: %s" % (bi is not None), ev.loc(I))
+    # the test is there and dominates the insert, but what its answer leads to is decided through a value (`let reason = if is_built_in(..)
+    # { Some(..) } ..; if let Some(r) = reason { return Err }`): not followed - a finding only when no such test dominates the insert at all
+    bi_dom = [b for b in ev.calls_to("blots_core::functions::is_built_in_function") if ev.dominates(b, I) and root_key(ev.trace(ev.term(b)["args"][0])) == key_root]
+    ctx.inst("C03.R2", "assignment#not-builtin", True if bi is not None else (None if bi_dom else False), "is_built_in_function(ident) dominates the insert and its true edge exits: %s%s" % (bi is not None, "" if bi is not None or not bi_dom else " (the test dominates the insert; its refusal goes through a value: not followed)"), ev.loc(I))
     # special-name comparisons: each `ident == "<name>"` test that dominates the insert must exit on its true edge
     n_sp = 0
     for b in ev.call_blocks():
@@ -208,7 +211,8 @@ def run(ctx):
         ctx.inst("C03.R2", "assignment#not-bound", False,
                  "the only contains_key test is stale: %s run(s) between the test and the insert and may bind the same name (x = (x = 5) + 1 binds x twice)" % sorted(set(stale[1])), ev.loc(stale[0]))
     else:
-        ctx.inst("C03.R2", "assignment#not-bound", False, "no contains_key(env, ident) test on the same environment and key dominates the insert", ev.loc(I))
+        ck_dom = [b for b in ck if ev.dominates(b, I) and root_key(ev.trace(ev.term(b)["args"][0])) == env_root and root_key(ev.trace(ev.term(b)["args"][1])) == key_root]
+        ctx.inst("C03.R2", "assignment#not-bound", None if ck_dom else False, "no contains_key(env, ident) test on the same environment and key dominates the insert with a refusing edge%s" % (" (a test dominates the insert; its refusal goes through a value: not followed)" if ck_dom else ""), ev.loc(I))
     # value = Ok payload of the RHS evaluation, which dominates the insert
     vroots = ev.trace(it["args"][2])
     rhs = [r for r in vroots if r[0] == "call" and r[1] == EVAL]
